@@ -6,10 +6,12 @@ import numpy as np
 
 from .. import core, symbols
 from ..translate import etdrk as tr_etdrk
+from ..translate import linops as tr_linops
 
 ID = "C01"
 PROPS_FILE = "C01"
-RULE = ("correspondence: (a) _build_linear_operator of every stepper class vs the extracted symbol model at every stored mode (exact rationals, L = 2 pi q), "
+RULE = ("translator: every _build_linear_operator under exponax/stepper (Wave excluded) and the two operator builders of _spectral.py are re-translated to Gen/LinOps.v "
+        "and proved equal to the symbol model for all arguments; correspondence: (a) _build_linear_operator of every stepper class vs the extracted symbol model at every stored mode (exact rationals, L = 2 pi q), "
         "(b) _exp_term vs exp(dt*lambda) for the linear classes, (c) Wave.step_fourier vs the extracted wave_mode at every stored mode; witness: stepper(u) vs the analytic "
         "solution of the DOCUMENTED PDE for single modes and superpositions below Nyquist (symbols recomputed in Python from the docstring formulas), n-fold vs n*dt, -dt round trip, "
         "dt up to 1e3. Non-trivial: non-constant modes; distinct by input hash.")
@@ -17,7 +19,16 @@ ASSUMPTIONS = ["jnp.exp is the exponential; rfftn/irfftn are the DFT pair of C04
 
 
 def translate(ctx):
-    tr_etdrk.run()
+    """Gen/ETDRK.v and Gen/LinOps.v (the per-mode linear symbols of every stepper class, tied to Spectral/Symbols.v by
+    Tie/LinOpsTie.v and the theorem C01_code_symbols_are_model_symbols); both are always attempted"""
+    errors = []
+    for name, tr in (("etdrk", tr_etdrk), ("linops", tr_linops)):
+        try:
+            tr.run()
+        except Exception as e:
+            errors.append(f"{name}: {type(e).__name__}: {e}")
+    if errors:
+        raise tr_linops.TranslationError("; ".join(errors))
 
 
 def _ex():
